@@ -552,6 +552,13 @@ def routes_agree(ctx: Ctx) -> None:
     post, upd_m = out_cls.methods.get("__post_init__"), out_cls.methods.get("update")
     if post is not None and upd_m is not None:
         ctor_validators = {func_text(post, c) for c in calls_in(post.node) if call_name_of(c) == "validate"}
+        # nested option groups validate themselves when they are constructed (config-file / constructor route): the late route must re-run those too
+        for fname, ann in out_cls.ann.items():
+            tname = unparse(ann).strip("'\"") if not isinstance(ann, str) else ann
+            sub = ctx.repo.classes.get(f"xsdata.models.config:{tname}")
+            sp = sub.methods.get("__post_init__") if sub is not None else None
+            if sp is not None and any(call_name_of(c) == "validate" and func_text(sp, c) == "self.validate" for c in calls_in(sp.node)):
+                ctor_validators.add(f"self.{fname}.validate")
         gu = build_cfg(upd_m.node)
         applied = [n for n in gu.stmts() if any(func_text(upd_m, c) == "objects.update" for c in node_calls(n))]
         after: set[str] = set()
